@@ -190,8 +190,8 @@ mod tests {
         assert_eq!(decode(&want, true).unwrap(), data);
         assert_eq!(encode(&[], true), [0x80, 0x40, 0x40]); // clear, EOD, 6 padding bits
         assert_eq!(encode(&[0xFF], false), [0x80, 0x3F, 0xE0, 0x20]); // clear, 255, EOD
-        assert_eq!(decode(&[0x80, 0x40, 0x40], true).unwrap(), []);
-        assert_eq!(decode(&[], true).unwrap(), []);
+        assert_eq!(decode(&[0x80, 0x40, 0x40], true).unwrap(), Vec::<u8>::new());
+        assert_eq!(decode(&[], true).unwrap(), Vec::<u8>::new());
         // 256 then 258: a table code directly after clear is invalid; 256 45 260 is out of range
         assert_eq!(decode(&[0x80, 0x40, 0x80], true), None);
         assert_eq!(decode(&[0x80, 0x0B, 0x60, 0x80], true), None);
